@@ -63,11 +63,11 @@ OwnerOf(mid) == mid \div 1000
    Identity: a model context that was observed before must be observed as the same object again (m is a
    function; it need not be injective - the property does not demand that contexts are fresh objects).
    If the object seen instead is one that the model created in another thread it is an isolation failure. *)
+Foreign(e) == \E q \in MidOf(e.cid) : OwnerOf(q) # e.t      \* the object is a context of another thread
 Clause(x, e) ==
   IF x.n # e.n THEN "node"
-  ELSE IF CidOf(x.id) # {} /\ CidOf(x.id) # {e.cid}
-         THEN (IF \E q \in MidOf(e.cid) : OwnerOf(q) # e.t THEN "isolation" ELSE "identity")
-  ELSE IF x.st # e.st THEN "status"
+  ELSE IF CidOf(x.id) # {} /\ CidOf(x.id) # {e.cid} THEN (IF Foreign(e) THEN "isolation" ELSE "identity")
+  ELSE IF x.st # e.st THEN (IF Foreign(e) THEN "isolation" ELSE "status")
   ELSE IF x.conv # e.conv THEN "mode"
   ELSE ""
 
